@@ -308,10 +308,16 @@ class G:
         self.kinds.append("softmax")
         return out.name
 
-    def reshape(self, x, new_shape):
+    def reshape(self, x, new_shape, dynamic_shape=False):
         X = self.T(x)
         nm = self.name("reshape")
-        s = self.const(nm + "_s", (len(new_shape),), "int32", new_shape)
+        if dynamic_shape:
+            # the shape operand is computed at run time (a graph input here): the operator cannot be resolved by the compiler and stays on the CPU
+            s = self.net.add_t(nm + "_s", (len(new_shape),), "int32")
+            self.net.inputs.append(s.name)
+            self.kinds.append("cpu:dyn_reshape")
+        else:
+            s = self.const(nm + "_s", (len(new_shape),), "int32", new_shape)
         out = self.act(nm + "_o", new_shape, X.scale[0], X.zp[0])
         self.net.add_o(BO.RESHAPE, [x, s.name], [out.name], "ReshapeOptions", dict(new_shape=list(new_shape)), 1)
         self.kinds.append("reshape")
@@ -822,10 +828,20 @@ def fam_cpu_mix(seed):
             a = g.unary("leaky_relu", x0, oscale=X0.scale[0], ozp=X0.zp[0])
         x = g.cpu_op(a, "floor_div", other=x0)
         n = int(r.integers(1, 4))
+    if r.integers(0, 5) == 0 and len(g.T(x).shape) == 4:
+        # a CPU-resident memory-only operator (RESHAPE whose shape is only known at run time) right next to accelerated operators
+        if r.integers(0, 2):
+            x = g.conv(x, int(r.choice([4, 8])), 1, 1, PAD_SAME, 0)
+        X = g.T(x)
+        x = g.reshape(x, [1, X.shape[2], X.shape[1], X.shape[3]] if r.integers(0, 2) else [1, X.shape[1] * X.shape[2], 1, X.shape[3]], dynamic_shape=True)
+        x = g.conv(x, int(r.choice([4, 8])), 1, 1, PAD_SAME, int(r.choice([0, 1])))
     for i in range(n):
         t = r.integers(0, 10)
         if t <= 3:
             x = _rand_exact_op(g, x)
+        elif t == 4 and r.integers(0, 3) == 0 and len(g.T(x).shape) == 4:
+            X = g.T(x)
+            x = g.reshape(x, [1, X.shape[2], X.shape[1], X.shape[3]] if r.integers(0, 2) else [1, X.shape[1] * X.shape[2], 1, X.shape[3]], dynamic_shape=True)
         elif t == 4:
             x = g.cpu_op(x, str(r.choice(["custom", "neg", "floor_div", "reverse"])))
         elif t == 5:
